@@ -210,7 +210,8 @@ def _summary(W):
 
 
 # ----------------------------------------------------------------------------------------------- H2
-@harness('H2', targets='kopf._core.reactor.processing.process_resource_causes', props=['C06'],
+@harness('H2', targets='kopf._core.reactor.processing.process_resource_causes', props=['C06', 'C09', 'C11', 'C15', 'C03'],
+         prop_clauses={'C09': ['removal_only_if', 'addition_iff'], 'C11': ['removal_only_if'], 'C15': ['addition_iff'], 'C03': ['removal_only_if', 'addition_iff', 'eventual_release_step']},
          clauses=['removal_only_if', 'addition_iff', 'dedicated_cycles_skip_handlers', 'eventual_release_step',
                   'own_finalizer_only'],
          canaries=['canary.never_releases', 'canary.never_adds'],
@@ -249,7 +250,8 @@ def H2(vc):
 
 
 # ----------------------------------------------------------------------------------------------- H3
-@harness('H3', targets='kopf._core.reactor.processing.process_resource_causes', props=['C07', 'C08', 'C02', 'C14'],
+@harness('H3', targets='kopf._core.reactor.processing.process_resource_causes', props=['C07', 'C08', 'C02', 'C14', 'C05', 'C06', 'C09', 'C10', 'C11', 'C15'],
+         prop_clauses={'C05': ['changing_precondition'], 'C06': ['low_level_first'], 'C09': ['low_level_first', 'passes_through'], 'C10': ['low_level_first', 'passes_through'], 'C11': ['changing_precondition'], 'C15': ['passes_through', 'low_level_first']},
          clauses=['changing_precondition', 'low_level_first', 'passes_through'],
          canaries=['canary.never_waits', 'canary.handlers_only_without_expectation'],
          trusted=['process_watching_cause: returns None, may add to the patch content',
@@ -328,7 +330,8 @@ def H4(vc):
 
 
 # ----------------------------------------------------------------------------------------------- H5
-@harness('H5', targets='kopf._core.reactor.processing._detect_causes', props=['C03', 'C04', 'C05', 'C10', 'C14', 'C15'],
+@harness('H5', targets='kopf._core.reactor.processing._detect_causes', props=['C03', 'C04', 'C05', 'C10', 'C14', 'C15', 'C06', 'C09', 'C11', 'C13', 'C02'],
+         prop_clauses={'C06': ['detectors_gated', 'passes_through'], 'C09': ['detectors_gated', 'passes_through'], 'C11': ['old_is_cleared_stored', 'new_is_cleared_built', 'one_diff', 'initial_formula'], 'C13': ['initial_formula'], 'C02': ['passes_through']},
          clauses=['old_is_cleared_stored', 'new_is_cleared_built', 'one_diff', 'initial_formula', 'reset_is_essential_change',
                   'detectors_gated', 'passes_through'],
          canaries=['canary.always_initial', 'canary.always_all_causes'],
@@ -436,7 +439,8 @@ def H5(vc):
 
 
 # ----------------------------------------------------------------------------------------------- H6
-@harness('H6', targets='kopf._core.reactor.processing.process_resource_event', props=['C03', 'C08', 'C17', 'C14', 'C12', 'C07'],
+@harness('H6', targets='kopf._core.reactor.processing.process_resource_event', props=['C03', 'C08', 'C17', 'C14', 'C12', 'C07', 'C05', 'C06', 'C09', 'C10', 'C11', 'C13', 'C15', 'C01', 'C02'],
+         prop_clauses={'C05': ['order', 'apply_unless_deleted', 'patch_threaded', 'recall_flag', 'passes_through'], 'C06': ['order', 'apply_unless_deleted', 'patch_threaded', 'passes_through'], 'C09': ['order', 'apply_unless_deleted', 'patch_threaded', 'inside_throttled', 'throttled_at_call_site', 'passes_through'], 'C10': ['order', 'index_gate', 'passes_through'], 'C11': ['apply_unless_deleted', 'patch_threaded', 'passes_through'], 'C13': ['passes_through'], 'C15': ['passes_through'], 'C01': ['order', 'index_gate', 'inside_throttled', 'throttled_at_call_site', 'passes_through'], 'C02': ['order', 'apply_unless_deleted', 'patch_threaded', 'passes_through']},
          clauses=['order', 'index_gate', 'apply_unless_deleted', 'patch_threaded', 'inside_throttled', 'throttled_at_call_site',
                   'posting_context', 'recall_flag', 'passes_through'],
          canaries=['canary.always_applies', 'canary.never_forgets', 'canary.remaining_never_changes'],
